@@ -45,6 +45,11 @@ def build(ld, kind, n, keyed, tmp):
             ds = ld.new(container).map(lambda e: e).cache()
         elif kind == 'diskcache':
             ds = ld.new(container).diskcache(cache_dir=os.path.join(tmp, 'dc'), reuse=False, clear=True)
+        elif kind == 'memcache_copy':
+            # the memory cache in its second immutability mode (class-level API only)
+            ds = ld.core.CacheDataset(ld.new(container), immutable_warranty='copy')
+        elif kind == 'memcache_copy_shared':
+            ds = ld.core.CacheDataset(ld.core.DictDataset(container) if keyed else ld.core.ListDataset(container), immutable_warranty='copy')
         elif kind == 'memcache_shared':
             # the upstream hands out SHARED objects: the cache is what provides the isolation
             ds = (ld.core.DictDataset(container) if keyed else ld.core.ListDataset(container)).cache()
@@ -167,7 +172,7 @@ def run(tier):
     r = common.rng_for('C09')
     big = tier != 'quick'
     tmp = tempfile.mkdtemp(prefix='c09_')
-    kinds = ['pickle', 'copy', 'wu', 'memcache', 'memcache_map', 'diskcache', 'memcache_shared', 'diskcache_shared']
+    kinds = ['pickle', 'copy', 'wu', 'memcache', 'memcache_map', 'diskcache', 'memcache_shared', 'diskcache_shared', 'memcache_copy', 'memcache_copy_shared']
     cases, lcases, lmeta, meta, failures = [], [], [], [], []
     for ci in range(5000 if big else 500):
         kind = r.choice(kinds)
